@@ -22,6 +22,14 @@ func init() {
 	wrap("C18", extra8C18)
 	wrap("C19", extra8C19)
 	wrap("C20", extra8C20)
+	wrap("C02", extra8C02)
+	wrap("C04", extra8C04)
+	wrap("C10", extra8C10)
+	wrap("C11", extra8C11)
+	wrap("C01", func(c *Ctx) { extra8SyncLoad(c, "C01-R15") })
+	wrap("C11", func(c *Ctx) { extra8SyncLoad(c, "C11-R20") })
+	wrap("C09", extra8C09)
+	registry["C10"].Pkgs = append(registry["C10"].Pkgs, "fs/util/bufioutil")
 	registry["C17"].Pkgs = append(registry["C17"].Pkgs, "llm")
 }
 
@@ -472,4 +480,323 @@ func extra8C20(c *Ctx) {
 		})
 	}
 	c.Expect(rule, "FindStringMatch calls in split", n, 1)
+}
+
+// ---------------------------------------------------------------------------------- C02
+
+func extra8C02(c *Ctx) {
+	rule := "C02-R16"
+	m := newSchedModel(c, rule)
+	c.Rule(rule, "making room finds a victim whenever something is loaded: findRunnerToUnload collects every entry of the loaded table (a loop whose body does nothing but append the runner, under loadedMu), answers nil only where that list is empty, and otherwise returns one of its elements — the pending loop retries on a nil victim without replying, so a filter on the candidates (never evict a pinned model, say) turns a request behind a full set of such models into one that gets neither a runner nor an error, and starves everything queued behind it")
+	f := c.Fn(rule, "server", "Scheduler.findRunnerToUnload")
+	if f == nil {
+		return
+	}
+	info := f.Info()
+	g := c.G(f)
+	list, ok := m.collectsLoaded(f)
+	c.Check(rule, f.Key()+" candidates are all loaded runners", c.Pos(f.Decl), list != nil && ok, "no loop over the loaded table whose whole body appends the runner to the candidate list (under loadedMu): some loaded runners are not candidates")
+	if list == nil {
+		return
+	}
+	n := 0
+	for _, ex := range g.Returns() {
+		if ex.Return == nil || len(ex.Return.Results) != 1 {
+			continue
+		}
+		n++
+		r := ast.Unparen(ex.Return.Results[0])
+		if id, isId := r.(*ast.Ident); isId && id.Name == "nil" && info.Uses[id] == types.Universe.Lookup("nil") {
+			empty := false
+			for _, a := range g.AtomsAt(ex.Loc) {
+				be, isB := ast.Unparen(a.Expr).(*ast.BinaryExpr)
+				if !isB {
+					continue
+				}
+				call, isC := ast.Unparen(be.X).(*ast.CallExpr)
+				if !isC || core.CalleeName(info, call) != "builtin.len" || !core.UsesObj(info, call.Args[0], list) {
+					continue
+				}
+				if v, isK := core.ConstInt(info, be.Y); isK && v == 0 && ((be.Op == token.EQL && a.Val) || (be.Op == token.LEQ && a.Val) || (be.Op == token.NEQ && !a.Val) || (be.Op == token.GTR && !a.Val)) {
+					empty = true
+				}
+			}
+			c.Check(rule, f.Key()+" return#"+itoa(n)+" nil only for an empty table", c.Pos(ex.Return), empty, "nil is returned although the candidate list may hold runners")
+			continue
+		}
+		// an element of the list: list[i] or the value variable of a loop over it
+		fromList := false
+		if ix, isIx := r.(*ast.IndexExpr); isIx && core.UsesObj(info, ix.X, list) {
+			fromList = true
+		}
+		if id, isId := r.(*ast.Ident); isId {
+			for _, rl := range rangeLoops(f) {
+				if rl.Over == list && rl.Stmt.Value != nil {
+					if vid, isV := rl.Stmt.Value.(*ast.Ident); isV && info.Defs[vid] == info.Uses[id] {
+						fromList = true
+					}
+				}
+			}
+		}
+		c.Check(rule, f.Key()+" return#"+itoa(n)+" is one of the candidates", c.Pos(ex.Return), fromList, "the victim `"+core.ExprString(r)+"` is not taken from the candidate list")
+	}
+	c.Expect(rule, "returns of findRunnerToUnload", n, 3)
+}
+
+// ---------------------------------------------------------------------------------- C04
+
+func extra8C04(c *Ctx) {
+	rule := "C04-R15"
+	c.Rule(rule, "a create that could not get its layers writes nothing: in the goroutine of CreateHandler, createModel cannot run after parseFromModel or convertModelFromFiles has failed (the failure edge of each leads to a return) — carrying on after reporting the error writes a manifest without weights: the model is listed and cannot be shown, and when the name existed its manifest is replaced and its layers are pruned")
+	f := c.Fn(rule, "server", "Server.CreateHandler")
+	if f == nil {
+		return
+	}
+	n := 0
+	for _, l := range f.Lits() {
+		g := c.G(l)
+		cms := g.FindCalls("server.createModel")
+		if len(cms) == 0 {
+			continue
+		}
+		for _, src := range g.FindCalls("server.parseFromModel", "server.convertModelFromFiles") {
+			n++
+			bad := ""
+			for _, cm := range cms {
+				reach, checked := g.FailureReaches(src, cm.Loc)
+				if !checked {
+					bad = "the error of this call is not examined"
+				} else if reach {
+					bad = "createModel at " + c.Pos(cm.Node) + " can run after this call failed"
+				}
+			}
+			c.Check(rule, l.Key()+" call:"+core.CalleeName(l.Info(), src.Node.(*ast.CallExpr))+"#"+itoa(n)+" failure ends the create", c.Pos(src.Node), bad == "", bad)
+		}
+	}
+	c.Expect(rule, "layer sources in the create goroutine", n, 3)
+}
+
+// ---------------------------------------------------------------------------------- C10
+
+func extra8C10(c *Ctx) {
+	rule := "C10-R15"
+	c.Rule(rule, "a relative seek stays relative to the file: BufferedSeeker.Seek hands the wrapped reader the whence it was given (the parameter, never reassigned), and on the io.SeekCurrent edge corrects the offset by the bytes still buffered before it seeks — Decode is applied repeatedly to one file that has already advanced (every further GGUF in a blob), so a position the wrapper keeps for itself, starting at 0, turns the tensor skip of the second GGUF into a jump back into the first: the reported end never passes the loop's offset and create never answers")
+	f := c.Fn(rule, "fs/util/bufioutil", "BufferedSeeker.Seek")
+	if f == nil {
+		return
+	}
+	info := f.Info()
+	g := c.G(f)
+	off, wh := paramAt(f, 0), paramAt(f, 1)
+	n := 0
+	for _, h := range g.Find(func(nd ast.Node) bool {
+		call, ok := nd.(*ast.CallExpr)
+		if !ok || len(call.Args) != 2 {
+			return false
+		}
+		se, isSel := ast.Unparen(call.Fun).(*ast.SelectorExpr)
+		return isSel && se.Sel.Name == "Seek"
+	}) {
+		n++
+		call := h.Node.(*ast.CallExpr)
+		okW := isIdentOf(info, call.Args[1], wh) && len(g.AssignsTo(wh)) == 0
+		okO := isIdentOf(info, call.Args[0], off)
+		// every assignment to the offset is the correction by the buffered byte count on the SeekCurrent edge
+		nCorr := 0
+		for _, as := range g.AssignsTo(off) {
+			a, isA := as.Node.(*ast.AssignStmt)
+			good := false
+			if isA && a.Tok == token.SUB_ASSIGN && len(core.CallsTo(info, a.Rhs[0], false, "bufio.Reader.Buffered")) == 1 {
+				for _, at := range g.AtomsAt(as.Loc) {
+					if be, isB := ast.Unparen(at.Expr).(*ast.BinaryExpr); isB && be.Op == token.EQL && at.Val && isIdentOf(info, be.X, wh) && strings.HasSuffix(core.ExprString(be.Y), "SeekCurrent") {
+						good = true
+					}
+				}
+			}
+			if good && g.Dominates(as.Loc, h.Loc) || good && g.Reaches(as.Loc, h.Loc) {
+				nCorr++
+			} else {
+				okO = false
+			}
+		}
+		c.Check(rule, f.Key()+" seek#"+itoa(n)+" passes whence through and corrects a relative offset", c.Pos(call), okW && okO && nCorr == 1, "the wrapped reader is given `"+core.ExprString(call.Args[0])+", "+core.ExprString(call.Args[1])+"`: not the caller's whence with the offset corrected by the buffered bytes (and nothing else)")
+	}
+	c.Expect(rule, "seeks of the wrapped reader in BufferedSeeker.Seek", n, 1)
+}
+
+// ---------------------------------------------------------------------------------- C11
+
+func extra8C11(c *Ctx) {
+	rule := "C11-R19"
+	c.Rule(rule, "whether a loaded runner can be reused does not depend on the client staying connected: every call of runnerRef.needsReload passes the context parameter of the function it is called from (the scheduler's), not a context reached through the request — needsReload pings the runner under the context it is given and treats any ping error as \"reload\", so under the request's context a client that leaves during the ping gets a healthy, compatible runner closed and another one started for a request that is already dead")
+	n := 0
+	for _, f := range c.P.FuncsOf("server") {
+		if strings.HasSuffix(c.Pos(f.Body), "_test.go") {
+			continue
+		}
+		info := f.Info()
+		for _, call := range core.CallsTo(info, f.Body, false, "server.runnerRef.needsReload") {
+			n++
+			// the root function's context parameter
+			root := f
+			for root.Parent != nil {
+				root = root.Parent
+			}
+			var ctxParam types.Object
+			for i := 0; ; i++ {
+				po := paramAt(root, i)
+				if po == nil {
+					break
+				}
+				if named, ok := po.Type().(*types.Named); ok && named.Obj().Pkg() != nil && named.Obj().Pkg().Path() == "context" && named.Obj().Name() == "Context" {
+					ctxParam = po
+				}
+			}
+			ok := len(call.Args) > 0 && ctxParam != nil && isIdentOf(info, call.Args[0], ctxParam)
+			got := ""
+			if len(call.Args) > 0 {
+				got = core.ExprString(call.Args[0])
+			}
+			c.Check(rule, f.Key()+" call:needsReload#"+itoa(n)+" under the scheduler's context", c.Pos(call), ok, "the health check runs under `"+got+"`")
+		}
+	}
+	c.Expect(rule, "calls of needsReload in package server", n, 1)
+}
+
+// ---------------------------------------------------------------------------------- C01 / C11
+
+// extra8SyncLoad: the pending loop does not look at the next request before the runner it started is in the table.
+func extra8SyncLoad(c *Ctx, rule string) {
+	c.Rule(rule, "a load is in the table before the next request is looked at: the function stored in Scheduler.loadFn outside tests is the method Scheduler.load itself, or a literal that calls it directly (never through a go statement), and no go statement anywhere in package server starts Scheduler.load or loadFn — load inserts the runner into the loaded table before it returns, which is what makes a second request for the same cold model find it; started in the background, both requests start a runner, the later insert overwrites the earlier one, and a finish event looked up by model path is charged to the wrong runner (closed under a request, the other never closed)")
+	fLoadFn := c.P.LookupField("server", "Scheduler", "loadFn")
+	if fLoadFn == nil {
+		c.Undecided(rule, "anchor:Scheduler.loadFn", "-", "anchor lost")
+		return
+	}
+	n := 0
+	for _, f := range c.P.FuncsOf("server") {
+		if strings.HasSuffix(c.Pos(f.Body), "_test.go") {
+			continue
+		}
+		info := f.Info()
+		core.InspectShallow(f.Body, func(nd ast.Node) bool {
+			switch x := nd.(type) {
+			case *ast.AssignStmt:
+				for i, l := range x.Lhs {
+					if core.FieldVar(info, l) != fLoadFn || i >= len(x.Rhs) {
+						continue
+					}
+					n++
+					c.Check(rule, f.Key()+" store:loadFn#"+itoa(n)+" is the synchronous load", c.Pos(x), syncLoadValue(info, x.Rhs[i]), "loadFn is `"+core.ExprString(x.Rhs[i])+"`")
+				}
+			case *ast.KeyValueExpr:
+				if id, ok := x.Key.(*ast.Ident); ok && info.Uses[id] == fLoadFn {
+					n++
+					c.Check(rule, f.Key()+" store:loadFn#"+itoa(n)+" is the synchronous load", c.Pos(x), syncLoadValue(info, x.Value), "loadFn is `"+core.ExprString(x.Value)+"`")
+				}
+			case *ast.GoStmt:
+				nm := core.CalleeName(info, x.Call)
+				if nm == "server.Scheduler.load" || core.FieldVar(info, x.Call.Fun) == fLoadFn {
+					c.Check(rule, f.Key()+" go:load", c.Pos(x), false, "the load is started in the background")
+				}
+			}
+			return true
+		})
+	}
+	c.Expect(rule, "stores to Scheduler.loadFn outside tests", n, 1)
+}
+
+func syncLoadValue(info *types.Info, e ast.Expr) bool {
+	e = ast.Unparen(e)
+	if se, ok := e.(*ast.SelectorExpr); ok {
+		if fn, isF := info.Uses[se.Sel].(*types.Func); isF && core.ObjName(fn) == "server.Scheduler.load" {
+			return true
+		}
+	}
+	if lit, ok := e.(*ast.FuncLit); ok {
+		direct, bg := false, false
+		ast.Inspect(lit.Body, func(m ast.Node) bool {
+			switch x := m.(type) {
+			case *ast.GoStmt:
+				bg = true
+			case *ast.DeferStmt:
+				_ = x
+			case *ast.CallExpr:
+				if core.CalleeName(info, x) == "server.Scheduler.load" {
+					direct = true
+				}
+			}
+			return true
+		})
+		return direct && !bg
+	}
+	return false
+}
+
+// ---------------------------------------------------------------------------------- C09
+
+func extra8C09(c *Ctx) {
+	rule := "C09-R17"
+	c.Rule(rule, "a push asks this registry about every layer: in PushModel the loop over the layers calls uploadBlob on every iteration — no continue, break or goto in the loop body, and the call is not inside a condition — so the manifest PUT that follows is preceded by an upload (or a found-present answer) of each layer at the registry being pushed to; a process-wide record of blobs pushed earlier, keyed without the registry host, skips them for a second registry, which then gets a manifest whose layers it never accepted")
+	f := c.Fn(rule, "server", "PushModel")
+	if f == nil {
+		return
+	}
+	info := f.Info()
+	g := c.G(f)
+	n := 0
+	for _, up := range g.FindCalls("server.uploadBlob") {
+		var loop *ast.RangeStmt
+		for _, rl := range rangeLoops(f) {
+			if within(rl.Stmt.Body, up.Node) && (loop == nil || within(loop, rl.Stmt)) {
+				loop = rl.Stmt
+			}
+		}
+		if loop == nil {
+			continue
+		}
+		n++
+		bad := ""
+		ast.Inspect(loop.Body, func(m ast.Node) bool {
+			switch x := m.(type) {
+			case *ast.FuncLit:
+				return false
+			case *ast.BranchStmt:
+				bad = x.Tok.String() + " at " + c.Pos(x) + " leaves the iteration"
+			}
+			return true
+		})
+		// the call is a top-level statement of the body (possibly the init of an if that tests its error)
+		top := false
+		for _, st := range loop.Body.List {
+			switch x := st.(type) {
+			case *ast.IfStmt:
+				if x.Init != nil && within(x.Init, up.Node) {
+					top = true
+				}
+			case *ast.AssignStmt, *ast.ExprStmt:
+				if within(x, up.Node) {
+					top = true
+				}
+			}
+		}
+		if !top && bad == "" {
+			bad = "the upload is inside a condition"
+		}
+		// the layer handed over is the loop's element
+		vid, isV := loop.Value.(*ast.Ident)
+		elem := false
+		if isV {
+			for _, a := range up.Node.(*ast.CallExpr).Args {
+				if isIdentOf(info, a, info.Defs[vid]) {
+					elem = true
+				}
+			}
+		}
+		if !elem && bad == "" {
+			bad = "uploadBlob is not given the loop's layer"
+		}
+		c.Check(rule, f.Key()+" upload#"+itoa(n)+" on every iteration of the layer loop", c.Pos(up.Node), bad == "", bad)
+	}
+	c.Expect(rule, "uploads inside the layer loop of PushModel", n, 1)
 }
